@@ -55,17 +55,9 @@ class wiring:
                         if a.name in FORBIDDEN_NAMES | {"load"}:
                             forbidden.append((name, a.name))
         out["the-only-constructor-registration-is-in-add_constructor_plugins"] = len(sites) == 1 and sites[0][0] == CORE and sites[0][1].func.attr == "add_constructor"
-        if len(sites) == 1:
-            call = sites[0][1]
-            kw = {k.arg: k.value for k in call.keywords}
-            tag = kw.get("tag") or (call.args[0] if call.args else None)
-            out["registered-tags-are-exclamation-mark-plus-plugin-name"] = tag is not None and ast.unparse(tag) in ('"!" + entry.name', "'!' + entry.name")
-            ctor = kw.get("constructor") or (call.args[1] if len(call.args) > 1 else None)
-            out["registered-constructors-are-yaml_constructor-of-the-plugin-factory"] = ctor is not None and isinstance(ctor, ast.Call) and ast.unparse(ctor.func) == "yaml_constructor" and ast.unparse(ctor.args[0]) == "pipeline_factory"
-            fn = repo.get(CORE + ":add_constructor_plugins")
-            assigns = [ast.unparse(n.value) for n in ast.walk(fn.node) if isinstance(n, ast.Assign) and any(isinstance(t, ast.Name) and t.id == "pipeline_factory" for t in n.targets)]
-            out["the-plugin-factory-is-the-entry-points-object-or-its-.s"] = sorted(assigns) == ["entry.load()", "entry.load().s"]
-            out["registration-targets-the-loader-argument"] = ast.unparse(call.func.value) == "loader"
+        # WHAT is registered there (tag '!' + name, yaml_constructor of the plugin's factory, on the loader passed in) is no longer a fact about
+        # the syntax: it is the contract of add_constructor_plugins itself (contracts/c18_registration.py) - the syntactic version raised a
+        # false alarm on a refactoring that only introduced two intermediate variables (DESIGN.md section 9, row 23)
         out["no-permissive-yaml-entry-point-is-named-anywhere-in-src"] = not forbidden
         # (2b) PyYAML's constructor / resolver tables are class attributes that add_constructor() copies on write; touching them
         # directly (or importing a permissive Constructor class to borrow its methods) bypasses every fact above
@@ -86,13 +78,7 @@ class wiring:
         ok = isinstance(fn, FunctionInfo)
         out["load-exists"] = ok
         if ok:
-            calls = [c for c in _calls_in(fn.node) if ast.unparse(c.func) == "load_yaml_configuration"]
-            kws = {k.arg: ast.unparse(k.value) for c in calls for k in c.keywords}
-            out["load-reads-yaml-with-COBalDLoader-only"] = len(calls) == 1 and kws.get("loader") == "COBalDLoader"
-            acp = [c for c in _calls_in(fn.node) if ast.unparse(c.func) == "add_constructor_plugins"]
-            out["plugins-are-registered-on-COBalDLoader"] = len(acp) == 1 and len(acp[0].args) >= 2 and ast.unparse(acp[0].args[1]) == "COBalDLoader"
-            b = repo.modules[CORE].bindings.get("load_yaml_configuration")
-            out["load_yaml_configuration-is-cobalds-own-yaml-loader"] = b == ("import", YAML, "load_configuration")
+            pass      # WHICH loader reads the document, and that the plugins were registered on that very class, is the contract of `load` itself (core_load below)
         # (5) factory_constructor calls only the factory and the loader's own construct_mapping / construct_sequence
         fc = repo.get(YAML + ":yaml_constructor.factory_constructor")
         out["factory_constructor-exists"] = isinstance(fc, FunctionInfo)
@@ -143,9 +129,102 @@ class yaml_load_configuration:
 
     raises = {"BaseException": lambda c, path, loader, plugins, exc: _prefix18(c, path, loader)}
 
+    def ghost_call(c, ctx, path, loader, plugins):
+        ctx.ghost.setdefault("c18_load_steps", []).append(("load_yaml_configuration", path, loader, plugins))
+    ghost_call = staticmethod(ghost_call)
+
 
 def _prefix18(c, path, loader):
     inst = Event.e_a(c.event_at(2))
     return c.And(c.n_events() >= 5, c.event_at(0) == c.event("open", path), Event.e_kind(c.event_at(1)) == c.ctx.E.event_kind("loader-instantiated"),
-                 Event.e_a(c.event_at(1)) == loader.t, Event.e_kind(c.event_at(2)) == c.ctx.E.event_kind("get_single_data"),
+                 Event.e_a(c.event_at(1)) == _t18(c, loader), Event.e_kind(c.event_at(2)) == c.ctx.E.event_kind("get_single_data"),
                  Event.e_kind(c.event_at(3)) == c.ctx.E.event_kind("dispose"), Event.e_a(c.event_at(3)) == inst, c.event_at(4) == c.event("close", path))
+
+
+# ---- core.config.load: which loader reads the document, and where its constructors come from -------------------------------------------
+@contract(CORE + ":load_section_plugins", props=["C18"], skip_body=True, kind="abstract")
+class load_section_plugins_iface:
+    """interface only (the function itself: bounded stand-in of C14): some tuple of section plugins with pairwise different sections"""
+    params = dict(entry_point_group=TStr())
+    result = C14.Plugins
+    fresh_result = True
+
+    def ensures(c, entry_point_group, result):
+        return result.distinct()
+
+    def ghost_call(c, ctx, entry_point_group):
+        ctx.ghost.setdefault("c18_load_steps", []).append(("load_section_plugins", entry_point_group))
+    ghost_call = staticmethod(ghost_call)
+
+    raises = {"BaseException": lambda c, entry_point_group, exc: True}
+
+
+@contract("cobald.daemon.config.python:load_configuration", props=["C18"], skip_body=True, kind="abstract")
+class load_python_configuration_iface:
+    """interface only: executes the given Python file as a module (outside C18: a .py configuration IS code)"""
+    params = dict(path=TStr())
+    result = TAny()
+
+    def ghost_call(c, ctx, path):
+        ctx.ghost.setdefault("c18_load_steps", []).append(("load_python_configuration", path))
+    ghost_call = staticmethod(ghost_call)
+
+    raises = {"BaseException": lambda c, path, exc: True}
+
+
+def _suffix_is(c, path, *exts):
+    """the path's extension (after its last '.', with no '/' behind it) is one of exts"""
+    p = Z.Val.s(path.t)
+    return c.Or(*[z3.SuffixOf(z3.StringVal(e), p) for e in exts])
+
+
+@contract(CORE + ":load", props=["C18"])
+class core_load:
+    """core.config.load(path), the daemon's only way to read a configuration: a .yaml/.yml path is read by load_yaml_configuration with
+    exactly COBalDLoader - the class add_constructor_plugins("cobald.config.yaml_constructors", ...) was applied to just before - and the
+    section plugins of "cobald.config.sections"; a .py path is executed as a module; anything else is a ValueError and nothing is read.
+    (A generator for @contextmanager: the body is run through its single yield.)"""
+    params = dict(config_path=TStr())
+    has_events = True
+
+    def writes(c, config_path):
+        return [("all", f, lambda x: True) for f in ("$mhas", "$mval", "$len", "$item")]
+
+    def ensures(c, config_path):
+        ctx = c.ctx
+        steps = ctx.ghost.get("c18_load_steps", [])
+        yielded = ctx.ghost.get("yielded", [])
+        loader = ctx.to_val(ctx.repo.get(CORE + ":COBalDLoader")).t
+        kinds = [s[0] for s in steps]
+        S = z3.StringVal
+        if kinds == ["add_constructor_plugins", "load_section_plugins", "load_yaml_configuration"]:
+            acp, lsp, lyc = steps
+            plugins_result = ctx.ghost.get("c18_section_plugins")
+            shape = c.And(Z.Val.s(_t18(c, acp[1])) == S("cobald.config.yaml_constructors"), _t18(c, acp[2]) == loader,
+                          Z.Val.s(_t18(c, lsp[1])) == S("cobald.config.sections"),
+                          _t18(c, lyc[1]) == config_path.t, _t18(c, lyc[2]) == loader)
+            return {"a-yaml-path-is-read-with-COBalDLoader-after-the-constructor-plugins-were-registered-on-it": c.And(shape, _suffix_is(c, config_path, ".yaml", ".yml")),
+                    "one-value-is-handed-to-the-with-block": _bb18(len(yielded) == 1)}
+        if kinds == ["load_python_configuration"]:
+            return {"only-a-py-path-is-executed-as-a-module": c.And(_t18(c, steps[0][1]) == config_path.t, _suffix_is(c, config_path, ".py")),
+                    "one-value-is-handed-to-the-with-block": _bb18(len(yielded) == 1)}
+        return {"the-configuration-is-read-in-one-of-the-two-documented-ways": False}
+
+    # an exception either comes out of one of the steps (then that step was one of the documented ones, in the documented order), or it is the
+    # ValueError for an extension that is none of the three - raised before anything was read
+    raises = {"ValueError": lambda c, config_path, exc: _bb18(_documented_prefix(c)),
+              "BaseException": lambda c, config_path, exc: _bb18(bool(c.ctx.ghost.get("c18_load_steps")) and _documented_prefix(c))}
+
+
+def _documented_prefix(c):
+    kinds = [s[0] for s in c.ctx.ghost.get("c18_load_steps", [])]
+    full = ["add_constructor_plugins", "load_section_plugins", "load_yaml_configuration"]
+    return kinds == full[:len(kinds)] or kinds == ["load_python_configuration"]
+
+
+def _t18(c, x):
+    return x.t if hasattr(x, "t") else c.ctx.to_val(x).t
+
+
+def _bb18(x):
+    return z3.BoolVal(bool(x)) if isinstance(x, bool) else x
